@@ -87,6 +87,7 @@ def run(prop, tier):
     env["PYTHONDONTWRITEBYTECODE"] = "1"
     env["OVLD_VERIF"] = "1"
     env["VF_TIER"] = tier
+    env["VF_NSHARDS"] = str(nshards)
     procs = []
     shards = [-1] + list(range(nshards))
     for sh in shards:
